@@ -142,6 +142,105 @@ theorem run_csi (vt : VTState) (hg : vt.ps = .ground) (ps : List (List UInt8)) (
     rw [this]
   rw [run_cons, run_nil, h3, set_ps_self vt _ hg]
 
+/-! ### Control sequences whose parameters are separated by `;` or `:` (SGR) -/
+
+/-- Parameters, each followed by a flag "the next separator is `:`" (ignored for the last one). -/
+def joinSep : List (List UInt8 × Bool) → List UInt8
+  | [] => []
+  | [p] => p.1
+  | p :: q :: rest => p.1 ++ [if p.2 then 0x3a else 0x3b] ++ joinSep (q :: rest)
+
+/-- The accumulator after reading `joinSep ps`. -/
+def accSep (a : CsiAcc) : List (List UInt8 × Bool) → CsiAcc
+  | [] => a
+  | [p] => { a with cur := paramVal p.1 }
+  | p :: q :: rest =>
+    if p.2 then accSep { a with sub := a.sub ++ [paramVal p.1], cur := none } (q :: rest)
+    else accSep { a with done := a.done ++ [a.sub ++ [paramVal p.1]], sub := [], cur := none } (q :: rest)
+
+/-- The parameter groups `joinSep ps` denotes, given the parts already read of the current group. -/
+def groupsOf (sub : List (Option Nat)) : List (List UInt8 × Bool) → List (List (Option Nat))
+  | [] => [sub ++ [none]]
+  | [p] => [sub ++ [paramVal p.1]]
+  | p :: q :: rest =>
+    if p.2 then groupsOf (sub ++ [paramVal p.1]) (q :: rest)
+    else (sub ++ [paramVal p.1]) :: groupsOf [] (q :: rest)
+
+theorem run_sep (ps : List (List UInt8 × Bool)) (hd : ∀ p ∈ ps, ∀ b ∈ p.1, isDigit b = true) (vt : VTState) (a : CsiAcc)
+    (hi : a.inter = []) (hc : a.cur = none) :
+    run (joinSep ps) { vt with ps := .csi a } = { vt with ps := .csi (accSep a ps) } := by
+  induction ps generalizing a with
+  | nil => simp [joinSep, accSep]
+  | cons p rest ih =>
+    cases rest with
+    | nil =>
+      simp only [joinSep, accSep]
+      exact run_param p.1 (hd p (by simp)) vt a hi hc
+    | cons q rest =>
+      simp only [joinSep, accSep, run_append]
+      rw [run_param p.1 (hd p (by simp)) vt a hi hc]
+      by_cases hcol : p.2 = true
+      · have hstep : step { vt with ps := .csi { a with cur := paramVal p.1 } } 0x3a =
+            { vt with ps := .csi { a with sub := a.sub ++ [paramVal p.1], cur := none } } := by
+          have : classify 0x3a = .colon := by decide
+          simp [step, VTState.csiByte, this, hi]
+        simp only [hcol, if_true]
+        rw [run_cons, run_nil, hstep]
+        exact ih (fun x hx => hd x (by simp [hx])) _ (by simpa using hi) rfl
+      · have hstep : step { vt with ps := .csi { a with cur := paramVal p.1 } } 0x3b =
+            { vt with ps := .csi { a with done := a.done ++ [a.sub ++ [paramVal p.1]], sub := [], cur := none } } := by
+          have : classify 0x3b = .semi := by decide
+          simp [step, VTState.csiByte, this, hi]
+        have hcol' : p.2 = false := by cases h : p.2 <;> simp_all
+        simp only [hcol', Bool.false_eq_true, if_false]
+        rw [run_cons, run_nil, hstep]
+        exact ih (fun x hx => hd x (by simp [hx])) _ (by simpa using hi) rfl
+
+theorem accSep_priv (a : CsiAcc) (ps : List (List UInt8 × Bool)) : (accSep a ps).priv = a.priv := by
+  induction ps generalizing a with
+  | nil => rfl
+  | cons p rest ih => cases rest with
+    | nil => rfl
+    | cons q rest => simp only [accSep]; split <;> rw [ih]
+
+theorem accSep_inter (a : CsiAcc) (ps : List (List UInt8 × Bool)) : (accSep a ps).inter = a.inter := by
+  induction ps generalizing a with
+  | nil => rfl
+  | cons p rest ih => cases rest with
+    | nil => rfl
+    | cons q rest => simp only [accSep]; split <;> rw [ih]
+
+theorem accSep_params (a : CsiAcc) (ps : List (List UInt8 × Bool)) (hne : ps ≠ []) :
+    (accSep a ps).params = a.done ++ groupsOf a.sub ps := by
+  induction ps generalizing a with
+  | nil => exact absurd rfl hne
+  | cons p rest ih => cases rest with
+    | nil => simp [accSep, groupsOf, CsiAcc.params]
+    | cons q rest =>
+      simp only [accSep, groupsOf]
+      split
+      · rw [ih _ (by simp)]
+      · rw [ih _ (by simp)]; simp
+
+/-- `ESC [ p1 s1 p2 s2 … pn F` with separators `;` / `:` read from the ground state is dispatched with the
+    parameter groups it denotes. -/
+theorem run_csi_sep (vt : VTState) (hg : vt.ps = .ground) (ps : List (List UInt8 × Bool)) (hne : ps ≠ [])
+    (hd : ∀ p ∈ ps, ∀ b ∈ p.1, isDigit b = true) (f : UInt8) (hf : classify f = .final) :
+    run (0x1b :: 0x5b :: (joinSep ps ++ [f])) vt = vt.dispatch 0 (groupsOf [] ps) [] f := by
+  have h1 : step vt 0x1b = { vt with ps := .esc } := by simp [step, hg, VTState.groundByte]
+  have h2 : step { vt with ps := .esc } 0x5b = { vt with ps := .csi CsiAcc.empty } := by simp [step]
+  rw [run_cons, h1, run_cons, h2, run_append, run_sep ps hd vt CsiAcc.empty rfl rfl]
+  have h3 : step { vt with ps := .csi (accSep CsiAcc.empty ps) } f =
+      ({ vt with ps := .ground } : VTState).dispatch 0 (groupsOf [] ps) [] f := by
+    have hp := accSep_params CsiAcc.empty ps hne
+    have hq := accSep_priv CsiAcc.empty ps
+    have hr := accSep_inter CsiAcc.empty ps
+    simp only [CsiAcc.empty, List.nil_append] at hp hq hr
+    simp only [step, VTState.csiByte, hf, CsiAcc.empty, hp, hq, hr]
+  rw [run_cons, run_nil, h3, set_ps_self vt _ hg]
+
+theorem dispatch_sgr (vt : VTState) (ps) : vt.dispatch 0 ps [] 0x6d = vt.sgr ps := rfl
+
 /-! ### Executor: closed forms under the side conditions the driver establishes -/
 
 /-- Goals of the form `(if … then … else …) = (if … then … else …)` over grid cells with linear side conditions. -/
